@@ -10,6 +10,7 @@
          | (3 recspec vmode reset scheme? tables [tampers])         from_line(Silent), in-place edits of stored columns, then record.validate
          | (4 mode hlines registry tables (recspec ...))            MafWriter on the parsed header, each record added
          | (5 hlines registry (mut ...) (mut ...))                  from_reader copy: mutate copy, mutate source, view both
+         | (6 hlines registry (hop ...))                            header edited through the mapping API, validate() + observation after every op
          | (9 case ...)                                             several cases, one reply each
    mode := () | (1) | (2) | (3)        None / Strict / Lenient / Silent
    scheme := (version annot norestr ((name cls) ...))     registry entry: columns may be elided: (version annot norestr ())
@@ -379,6 +380,61 @@ Definition run_store (hlines : list str) (reg : list (tscheme * bool))
   | _ => s_bad
   end.
 
+(* a header (from_lines, Silent) edited through the MutableMapping API; after
+   every operation validate() is run and the header observed *)
+Inductive hop := HSet (k : str) (r : hrec) | HDel (k : str) | HClear | HPopItem.
+Definition dec_hop (s : sexp) : option hop :=
+  match s with
+  | L [A 0; k; L [A 0; v]] =>
+      match as_str k, as_str v with Some k', Some v' => Some (HSet k' {| hkey := k'; hval := HText v' |}) | _, _ => None end
+  | L [A 0; k; L [A 1; n; cs]] =>
+      match as_str k, as_str n, as_opt (as_listof as_str) cs with
+      | Some k', Some n', Some cs' =>
+          match sort_record_of_name n' cs' with Ok r => Some (HSet k' r) | Raise _ => None end
+      | _, _, _ => None
+      end
+  | L [A 0; k; L [A 2; cs]] =>
+      match as_str k, as_listof as_str cs with
+      | Some k', Some cs' => Some (HSet k' {| hkey := K_CONTIGS; hval := HContigs cs' |})
+      | _, _ => None
+      end
+  | L [A 1; k] => option_map HDel (as_str k)
+  | L [A 2] => Some HClear
+  | L [A 3] => Some HPopItem
+  | _ => None
+  end.
+
+(* __setitem__ asserts key == value.key; __delitem__ / pop raise KeyError for
+   an absent key; popitem removes the first key (KeyError when empty) *)
+Definition apply_hop (recs : list (str * hrec)) (o : hop) : list (str * hrec) * res unit :=
+  match o with
+  | HSet k r => if str_eqb k (hkey r) then (dset k r recs, Ok tt) else (recs, Raise AssertionError)
+  | HDel k => match assoc k recs with Some _ => (ddel k recs, Ok tt) | None => (recs, Raise KeyError) end
+  | HClear => ([], Ok tt)
+  | HPopItem => match recs with [] => (recs, Raise KeyError) | (k, _) :: rest => (ddel k recs, Ok tt) end
+  end.
+
+Fixpoint run_hops (registry : list tscheme) (h : header) (ops : list hop) : list sexp :=
+  match ops with
+  | [] => []
+  | o :: rest =>
+      let '(recs', out) := apply_hop (hrecs h) o in
+      let h1 := {| hrecs := recs'; herrs := herrs h; hmode := hmode h |} in
+      match header_validate registry h1 None LgRoot true with
+      | (_, Ok h2) =>
+          L [match out with Ok _ => L [] | Raise e => L [s_of_exn e] end; enc_header registry h2]
+          :: run_hops registry h2 rest
+      | (_, Raise e) => [L [L [s_of_exn e]; L []]]
+      end
+  end.
+
+Definition run_header_ops (lines : list str) (reg : list (tscheme * bool)) (ops : list hop) : sexp :=
+  let registry := map fst reg in
+  match header_from_lines registry lines (Some Silent) LgRoot with
+  | (_, Ok h) => L [enc_header registry h; L (run_hops registry h ops)]
+  | _ => s_bad
+  end.
+
 Definition dispatch1 (s : sexp) : sexp :=
   match s with
   | L [A 0; m; lines; reg] =>
@@ -417,6 +473,11 @@ Definition dispatch1 (s : sexp) : sexp :=
       | Some m', Some hl', Some reg', Some tb', Some specs' =>
           if forallb (spec_complete tb') specs' then run_writer m' hl' reg' tb' specs' else s_bad
       | _, _, _, _, _ => s_bad
+      end
+  | L [A 6; hl; reg; ops] =>
+      match as_listof as_str hl, as_listof dec_scheme_e reg, as_listof dec_hop ops with
+      | Some hl', Some reg', Some ops' => run_header_ops hl' reg' ops'
+      | _, _, _ => s_bad
       end
   | L [A 5; hl; reg; mc; ms] =>
       match as_listof as_str hl, as_listof dec_scheme_e reg, as_listof dec_mut mc, as_listof dec_mut ms with
